@@ -217,6 +217,12 @@ def run(e: Engine, rep: Report):
              'round for the same request (the only unbounded loops around '
              'timed steps are the ones that take a NEW request with poll())')
     t9(e, rep)
+    rep.rule('T10', 'one clock per pipe attempt: the `with Timeout('
+             'self.timeout)` of the pipe relay is entered outside the loop '
+             'over the recipients - a scope per recipient (or per child '
+             'process) bounds each delivery, and the attempt by n times the '
+             'configured timeout')
+    t10(e, rep)
 
 
 def t4(e: Engine, rep: Report):
@@ -714,3 +720,46 @@ def t9(e: Engine, rep: Report):
     if n < 2:
         rep.error('anchor vanished: while loops of the relay modules '
                   '(%d < 2)' % n)
+
+
+# --------------------------------------------------------------------- T10
+def t10(e: Engine, rep: Report):
+    n = 0
+    for c in e.concrete_classes('slimta.relay.pipe.PipeRelay'):
+        ctx = e.method_ctx(c, 'attempt')
+        g = e.build(ctx, inline=e.inline_same_self(), max_depth=4,
+                    raises=lambda b, nn, r: set())
+        where = '%s[%s]' % (ctx.func.qname, c.rpartition('.')[2])
+        rep.functions.add(ctx.func.qname)
+        scopes = [w for w in g.of_kind('with_enter')
+                  if isinstance(w.ast.context_expr, ast.Call) and
+                  ast.unparse(w.ast.context_expr.func).rpartition('.')[2]
+                  == 'Timeout']
+        # gevent.with_timeout(t, f, ...) arms the clock for one call of f
+        scopes += [x for x in g.nodes if x.kind in ('call', 'call_enter') and
+                   getattr(x.ast, '_via_with_timeout', None) is None and
+                   ast.unparse(x.ast.func).rpartition('.')[2] ==
+                   'with_timeout']
+        scopes += [x for x in g.nodes if x.kind == 'call_enter' and
+                   getattr(x.ast, '_via_with_timeout', None) is not None]
+        for w in scopes:
+            n += 1
+            rep.evaluations += 1
+            loops = [sc for sc in w.scopes if sc.kind == 'loop' and
+                     isinstance(sc.ast, (ast.For, ast.comprehension)) and
+                     'recipients' in ast.unparse(sc.ast.iter)]
+            rep.check(not loops, 'T10', where,
+                      'the timeout scope is entered once per attempt',
+                      'the pipe relay enters `%s` inside its loop over the '
+                      'recipients: every delivery gets the full timeout of '
+                      'its own, an attempt for n recipients of a hanging '
+                      'command lasts n times the configured timeout (and '
+                      'keeps its slot of the relay pool that long)'
+                      % w.text(40), loc=w.loc(),
+                      reason='not inside the recipient loop')
+    rep.evaluations += 1
+    if n < 1:
+        # (T1 reports a pipe relay whose child is not under a timeout)
+        rep.ok('T10', 'slimta.relay.pipe', 'no timeout scope found in the '
+               'pipe relay', reason='coverage is T1\'s obligation',
+               nontrivial=False)
